@@ -69,7 +69,11 @@ class Grammar(qc.QGrammar):
         h, threads = recipe[0], recipe[1]
         P = IOProgram()
         qc.perturbation_cfg(P, h, kind, cpu, eintr=False)
-        P.cfg["hqconc"] = h[10] % 2
+        P.cfg["hqconc"] = [0, 1, 0, 1, 2, 3][h[10] % 6]          # handler queue: serial / concurrent / global / workloop
+        P.cfg["iotq"] = [0, 0, 1, 2, 3][(h[10] >> 3) % 5]        # target queue of the channels: default / private serial / private concurrent / utility global
+        P.features.add("handlers-on=%s" % ["serial", "concurrent", "global", "workloop"][P.cfg["hqconc"]])
+        if P.cfg["iotq"]:
+            P.features.add("channel-target-queue-set")
         P.cfg["inject"] = [0, 0, 50, 200, 500][h[22] % 5]       # short counts / EINTR injected into the library's read/write calls on the channel fds
         if P.cfg["inject"]:
             P.features.add("fault-injection")
@@ -258,7 +262,7 @@ def io_verdicts(prog, hist):
         # the close is not pending at that point and merely fails with ECANCELED, so only operations scheduled before the close call are ordered
         first_close = min([c[0] for c in closes.get(o.a, [])] + [1 << 60])
         # (observable only with a serial handler queue: on a concurrent one the cleanup block and a handler enqueued before it may run in any order)
-        if prog.cfg.get("hqconc", 0) == 0 and cp and dl and dl[-1][1] is not None and dl[-1][1] > cp[0] and ret.get(o.id, 1 << 60) < first_close:
+        if prog.cfg.get("hqconc", 0) in (0, 3) and cp and dl and dl[-1][1] is not None and dl[-1][1] > cp[0] and ret.get(o.id, 1 << 60) < first_close:
             out.append(Verdict("cleanup handler of channel %d ran (event %d) before the last handler of op %d returned (event %d)" % (o.a, cp[0], o.id, dl[-1][1]), dict(kind="io-cleanup-early")))
     # submission order per stream channel and direction (same thread: program order)
     for c, d in prog.chans.items():
